@@ -689,3 +689,11 @@ LEAN_TARGETS = LEAN_TARGETS + ['OdxVerif.Props.C03Nested3']
 THEOREMS = THEOREMS + ["OdxVerif.Codec." + t for t in ['C03_reencode_nested3', 'C03_reencode_nested3_echo', 'C03_encoded_is_canonical3', 'descs3_reencode_pure',
                                                         'Descs3.supplied_eq_decoded', 'C03_texttable_interior_not_reproduced',
                                                         'C03_texttable_duplicate_text_not_reencodable', 'exRe7_ok', 'exRe7_full', 'exRe7_disj']]
+
+
+# W29 (compu DOP as MULTIPLEXER switch key / DYNAMIC-LENGTH-FIELD count, W23 leaves: Desc3b / Described3b) — appended
+LEAN_TARGETS = LEAN_TARGETS + ['OdxVerif.Props.C03Nested3b']
+THEOREMS = THEOREMS + ["OdxVerif.Codec." + t for t in ['C03_reencode_nested3b', 'C03_reencode_nested3b_echo', 'C03_encoded_is_canonical3b',
+                                                        'descs3b_reencode_pure', 'Descs3b.supplied_eq_decoded', 'descs3b_cur_eq',
+                                                        'C03_mux_compu_key_interior_not_reproduced', 'C03_dynlen_compu_count_rounded',
+                                                        'exRe9_ok', 'exRe9_full', 'exRe9_disj', 'LinFLeaf.desc_full']]
